@@ -33,9 +33,13 @@ type modelOracle struct {
 var declRe = regexp.MustCompile(`\(declare-fun ([^ ]+) `)
 
 func newOracle(o *Obligation) *modelOracle {
-	m := &modelOracle{query: o.Query, solver: strings.TrimSuffix(strings.TrimSuffix(o.Solver, "(dup)"), "+inst"),
+	q, sv := o.Query, o.Solver
+	if o.Result != "refuted" && o.CandQuery != "" {
+		q, sv = o.CandQuery, o.CandSolver
+	}
+	m := &modelOracle{query: q, solver: strings.TrimSuffix(strings.TrimSuffix(sv, "(dup)"), "+inst"),
 		known: map[string]uint64{}, pending: map[string]bool{}, decl: map[string]bool{}}
-	for _, d := range declRe.FindAllStringSubmatch(o.Query, -1) {
+	for _, d := range declRe.FindAllStringSubmatch(q, -1) {
 		m.decl[d[1]] = true
 	}
 	return m
@@ -292,6 +296,11 @@ func (g *materializer) value(t types.Type, leafVal func(path string, srt Sort) u
 			return ts + "(nil)"
 		}
 		if ln < 0 || ln > 1<<16 {
+			if b, ok := u.Elem().Underlying().(*types.Basic); ok && b.Kind() == types.Uint8 && ln > 0 && ln <= (1<<32)+(1<<20) {
+				// a huge byte slice: only its length can matter; contents are zero
+				g.partial = append(g.partial, fmt.Sprintf("byte slice %s of length %d allocated zero-filled", path, ln))
+				return fmt.Sprintf("make(%s, %d)", ts, ln)
+			}
 			g.partial = append(g.partial, fmt.Sprintf("slice %s has length %d: not materialised", path, ln))
 			return "PVC_TOO_LARGE"
 		}
@@ -537,7 +546,10 @@ func tryReplay(w *World, v violation) *replayRun {
 		rr.Outcome, rr.Why = "skipped", why
 		return rr
 	}
-	if o == nil || o.Run == nil || o.Query == "" {
+	if o == nil || o.Run == nil || (o.Query == "" && o.CandQuery == "") {
+		return skip("no model available")
+	}
+	if o.Result != "refuted" && o.CandQuery == "" {
 		return skip("no model available")
 	}
 	if c.Opaque {
@@ -621,6 +633,13 @@ func tryReplay(w *World, v violation) *replayRun {
 		if i == 0 && sig.Recv() != nil && run.recv != nil {
 			recvName = p.name
 		}
+	}
+	for _, rq := range c.Requires {
+		rw, err := RewriteExpr(rq.Dir.Expr)
+		if err != nil {
+			continue
+		}
+		fmt.Fprintf(&b, "\tfmt.Println(\"PVC-REPLAY requires:\", %s)\n", rw)
 	}
 	var argNames []string
 	for i, p := range params {
@@ -726,6 +745,9 @@ func TestPVCReplay(t *testing.T) {
 	switch {
 	case outcome != "ran":
 		rr.Outcome = "error"
+	case strings.Contains(out, "PVC-REPLAY requires: false"):
+		rr.Outcome = "not-reproduced"
+		rr.Why += " (a precondition is false on the materialised inputs)"
 	case safety[o.Kind]:
 		if strings.Contains(out, "PVC-REPLAY panic:") {
 			rr.Outcome = "confirmed"
@@ -733,7 +755,7 @@ func TestPVCReplay(t *testing.T) {
 			rr.Outcome = "not-reproduced"
 		}
 	default:
-		if strings.Contains(out, "PVC-REPLAY clause: false") || strings.Contains(out, "PVC-REPLAY panic:") {
+		if strings.Contains(out, "PVC-REPLAY clause: false") {
 			rr.Outcome = "confirmed"
 		} else {
 			rr.Outcome = "not-reproduced"
